@@ -10,11 +10,11 @@ open Num
 /-- rewrite the `Num ℝ` operations into the ordinary real ones -/
 macro "num_real" : tactic =>
   `(tactic| (try simp only [real_add, real_sub, real_mul, real_div, real_neg, real_ofNat, real_ofNat', real_abs, real_sqrt,
-      real_nextUp, real_nextDown, realOfNat_zero, realOfNat_one, realOfNat_ofNat, real_ofSci, real_ofSci']))
+      real_nextUp, real_nextDown, realOfNat_zero, realOfNat_one, realOfNat_cast, Nat.cast_ofNat, Nat.cast_zero, Nat.cast_one, real_ofSci, real_ofSci']))
 
 macro "num_real_at" h:ident : tactic =>
   `(tactic| (try simp only [real_add, real_sub, real_mul, real_div, real_neg, real_ofNat, real_ofNat', real_abs, real_sqrt,
-      real_nextUp, real_nextDown, realOfNat_zero, realOfNat_one, realOfNat_ofNat, real_ofSci, real_ofSci'] at $h:ident))
+      real_nextUp, real_nextDown, realOfNat_zero, realOfNat_one, realOfNat_cast, Nat.cast_ofNat, Nat.cast_zero, Nat.cast_one, real_ofSci, real_ofSci'] at $h:ident))
 
 namespace M4
 
